@@ -56,6 +56,13 @@ def tamper (ct : List UInt8) (c1len : Nat) (kind arg : String) : Option (List UI
   | "trunc" => arg.toNat?.map fun l => ct.take l
   | "prefix" => arg.toNat?.map fun v => (match ct with | [] => [] | _ :: r => v.toUInt8 :: r)
   | "c1" => (bytesOfHex arg).map fun n => n ++ ct.drop c1len
+  | "xor" =>
+    match arg.splitOn ":" with
+    | [ps, mk] => do
+      let mk ← (bytesOfHex mk).bind List.head?
+      let idx ← (ps.splitOn ",").mapM String.toNat?
+      if idx.any (· ≥ ct.length) then none else pure (ct.mapIdx fun i x => if idx.contains i then x ^^^ mk else x)
+    | _ => none
   | _ => none
 
 /-- `hex::decode` of an ASCII string given as bytes: even length, [0-9a-fA-F] -/
